@@ -264,11 +264,11 @@ def all_jobs():
     mg = '_ZN4bloc14FunctorManager9createEnvERNS_7ContextEjRKSt6vectorIPNS_10ExpressionESaIS5_EE'
     STORE = '_ZNK4bloc18VariableExpression5storeERNS_7ContextES2_PNS_10ExpressionE'
     J.append(dict(id='fm_createEnv', src='blocc/functor_manager.cpp', contract='fn_env.c', enforce=mg, roots=[mg], replace=[], cut=[STORE, RTE_CTOR, RTE_CTOR_S],
-                  props=['C01', 'C08'], pretty='bloc::FunctorManager::createEnv', canaries=['normal', 'exceptional'], unwind=5, bounded_inputs=True,
+                  props=['C01', 'C07', 'C08', 'C17'], pretty='bloc::FunctorManager::createEnv', canaries=['normal', 'exceptional'], unwind=5, bounded_inputs=True,
                   unwind_why='parameter list of at most 2 symbols',
                   structs=DEFAULT_STRUCTS + [STD_STRING, 'bloc::FunctorManager', 'bloc::FunctorManager::Entry', 'bloc::FunctorManager::Env', 'bloc::Functor', 'bloc::Context', 'bloc::VariableExpression', 'bloc::Symbol']))
     J.append(dict(id='fm_createEnv_noparams', src='blocc/functor_manager.cpp', contract='fn_env.c', enforce=mg, roots=[mg], replace=[], cut=[STORE, RTE_CTOR, RTE_CTOR_S],
-                  props=['C01', 'C08'], pretty='bloc::FunctorManager::createEnv (functions without parameters)', canaries=['normal', 'exceptional'], unwind=2, defines=['JOB_NO_PARAMS'],
+                  props=['C01', 'C07', 'C08', 'C17'], pretty='bloc::FunctorManager::createEnv (functions without parameters)', canaries=['normal', 'exceptional'], unwind=2, defines=['JOB_NO_PARAMS'],
                   unwind_why='the binding loop runs over an empty parameter list (precondition): one test of its condition is complete',
                   structs=DEFAULT_STRUCTS + [STD_STRING, 'bloc::FunctorManager', 'bloc::FunctorManager::Entry', 'bloc::FunctorManager::Env', 'bloc::Functor', 'bloc::Context', 'bloc::VariableExpression', 'bloc::Symbol']))
     # ---- C11: rollback of a rejected text ----
